@@ -116,6 +116,39 @@ class MutableKernelSizes:
             channel_size, kernel_size, stride_size, input_shape
         )
 
+    def _later_layers_fit(
+        self,
+        hidden_layer: int,
+        new_kernel_size: int,
+        stride_size: List[int],
+        input_shape: Tuple[int],
+    ) -> bool:
+        """Whether every layer still fits its input when the (square) kernel of ``hidden_layer``
+        is replaced by ``new_kernel_size``.
+
+        :param hidden_layer: Depth of hidden layer whose kernel size is to be changed.
+        :type hidden_layer: int
+        :param new_kernel_size: Candidate kernel size for that layer.
+        :type new_kernel_size: int
+        :param stride_size: Stride size of each convolutional layer.
+        :type stride_size: List[int]
+        :param input_shape: Input shape.
+        :type input_shape: Tuple[int]
+
+        :return: True if no kernel is larger than the feature map it is applied to.
+        :rtype: bool
+        """
+        height_in, width_in = input_shape[-2:]
+        for idx, k_size in enumerate(self.int_sizes):
+            if idx == hidden_layer:
+                k_size = new_kernel_size
+            if k_size > height_in or k_size > width_in:
+                return False
+            height_in = (height_in - k_size) // stride_size[idx] + 1
+            width_in = (width_in - k_size) // stride_size[idx] + 1
+
+        return True
+
     def change_kernel_size(
         self,
         hidden_layer: int,
@@ -151,6 +184,15 @@ class MutableKernelSizes:
             new_kernel_size = max(1, min(int(kernel_size), max_kernels[hidden_layer]))
         else:
             new_kernel_size = np.random.randint(1, max_kernels[hidden_layer] + 1)
+
+        # The bound above only looks at the layer that is changed. A larger kernel also shrinks
+        # the input of every later layer, so step the new size down until all of them still fit
+        # (a size up to the current one always does, since it only enlarges their inputs)
+        current_kernel_size = self.int_sizes[hidden_layer]
+        while new_kernel_size > current_kernel_size and not self._later_layers_fit(
+            hidden_layer, new_kernel_size, stride_size, input_shape
+        ):
+            new_kernel_size -= 1
 
         if self.tuple_sizes:
             if self.cnn_block_type == "Conv2d":
